@@ -517,8 +517,20 @@ func FTypeSwitchVar2(v interface{}) string {
 	return "none"
 }
 
+func FTypeSwitchVar3(v interface{}) string {
+	limit := 3
+	switch limit2 := v.(type) {
+	case int:
+		return itoa(limit + limit2)
+	case string:
+		return limit2 + itoa(limit)
+	}
+	return itoa(limit)
+}
+
 func FTypeSwitchAll() string {
-	return FTypeSwitchVar(3) + FTypeSwitchVar("s") + FTypeSwitchVar(nil) + FTypeSwitchVar(2.5) + FTypeSwitchVar2(1) + FTypeSwitchVar2("x") + FTypeSwitchVar2(1.5)
+	return FTypeSwitchVar(3) + FTypeSwitchVar("s") + FTypeSwitchVar(nil) + FTypeSwitchVar(2.5) + FTypeSwitchVar2(1) + FTypeSwitchVar2("x") + FTypeSwitchVar2(1.5) +
+		FTypeSwitchVar3(4) + FTypeSwitchVar3("y") + FTypeSwitchVar3(nil)
 }
 `, "FTypeSwitchAll"},
 		{"method-named-like-the-injector", `
